@@ -118,6 +118,14 @@ def cmd_check(a):
                 funcs = sorted(set(funcs) | set(f))
                 obs1 = _norm(repr(env.OBS))
                 del env.OBS[:]
+                # the same sample once more, still untraced: identical input must give an identical observation
+                r1b = o.fn(**dict(s))
+                obs1b = _norm(repr(env.OBS))
+                del env.OBS[:]
+                if bool(r1b) != bool(r1) or obs1b != obs1:
+                    out["state"] = "REPEAT_DIFF"; out["args"] = s
+                    out["detail"] = "first run: %s | second run: %s" % (obs1[:1500], obs1b[:1500])
+                    _emit(out); return
                 with standalone_statespace:
                     r2 = o.fn(**dict(s))
                     with NoTracing():
@@ -202,6 +210,13 @@ def cmd_replay(a):
     rp = json.load(open(a.file))
     os.environ["VF_NO_SKIP"] = "1" if rp.get("no_skip") else os.environ.get("VF_NO_SKIP", "0")
     mod, err = _import(rp["module"])
+    if rp.get("import_only"):
+        if err:
+            print(err["detail"][-3000:])
+            print("REPLAY: reproduces on the real code: building the catalogue engines of %s raises" % rp["module"])
+            sys.exit(1)
+        print("REPLAY: holds (the harness imports)")
+        sys.exit(0)
     if err:
         # a catalogue engine that cannot be built: the real code raising on valid SDL
         print(err["detail"])
@@ -212,6 +227,17 @@ def cmd_replay(a):
     obmod.set_shard(rp.get("shard") or {})
     env.OBS_ON = True
     env.EXPLAIN = True
+    if rp.get("repeat"):
+        try:
+            r1 = o.fn(**rp["args"]); o1 = _norm(repr(env.OBS)); del env.OBS[:]
+            r2 = o.fn(**rp["args"]); o2 = _norm(repr(env.OBS))
+        except Exception:
+            traceback.print_exc(); print("REPLAY: obligation raised (harness error)"); sys.exit(2)
+        if bool(r1) != bool(r2) or o1 != o2:
+            print("  first run :", o1[:1500]); print("  second run:", o2[:1500])
+            print("REPLAY: reproduces on the real code: the same request sequence, repeated in one process, is answered differently: %s%s shard=%s" % (rp["fn"], rp["args"], rp.get("shard")))
+            sys.exit(1)
+        print("REPLAY: holds (repeating the sample gives the same observation)"); sys.exit(0)
     try:
         r = o.fn(**rp["args"])
     except Exception:
